@@ -77,6 +77,8 @@ type ChanStore struct {
 	SentCnt *Term // Int ghost: number of sends
 	RecvCnt *Term // Int ghost: number of receives
 	Held    *Term // Int ghost: tokens this function holds (semaphore typestate)
+	Len     *Term          // exact fill level (meaningful for channels used sequentially, `seq:`)
+	LastCount *Term        // ghost: Count field of the last element sent (payloads with a Count field)
 	Invs    []*ChanInvDecl // channel invariants adopted on this path
 	Local   bool           // made by the function under verification on this path
 }
@@ -686,7 +688,9 @@ func (e *Engine) freshStore(o *Object, facts *[]*Term) Val {
 	case "chan":
 		cp := Var(o.name+".cap", SInt)
 		*facts = append(*facts, Ge(cp, Int(0)))
-		return &ChanStore{Cap: cp, Closed: Var(o.name+".closed", SBool), SentCnt: Int(0), RecvCnt: Int(0), Held: Int(0), Sent: Str("")}
+		ln := Var(o.name+".len", SInt)
+		*facts = append(*facts, Ge(ln, Int(0)), Le(ln, cp))
+		return &ChanStore{Cap: cp, Closed: Var(o.name+".closed", SBool), SentCnt: Int(0), RecvCnt: Int(0), Held: Int(0), Sent: Str(""), Len: ln, LastCount: Var(o.name+".lastCount", SInt)}
 	}
 	return e.freshVal(o.typ, o.name, facts)
 }
@@ -698,7 +702,7 @@ func (e *Engine) zeroStore(o *Object) Val {
 		ks := e.elemSort(u.Key())
 		return &MapStore{Dom: ConstArr(SArr(ks, SBool), TFalse), Val: ConstArr(SArr(ks, e.elemSort(u.Elem())), e.zeroTerm(u.Elem())), Len: Int(0)}
 	case "chan":
-		return &ChanStore{Cap: Int(0), Closed: TFalse, SentCnt: Int(0), RecvCnt: Int(0), Held: Int(0), Sent: Str("")}
+		return &ChanStore{Cap: Int(0), Closed: TFalse, SentCnt: Int(0), RecvCnt: Int(0), Held: Int(0), Sent: Str(""), Len: Int(0), LastCount: Int(0)}
 	case "arr":
 		u := under(o.typ).(*types.Array)
 		if isByteType(u.Elem()) {
